@@ -22,12 +22,12 @@ fn scan(bytes: &[u8], depth: u32, entries: &mut Vec<String>, budget: &mut usize)
             let v = std::str::from_utf8(field)
                 .ok()
                 .and_then(|s| s.trim_end_matches('\0').parse::<f64>().ok());
-            entries.push(format!(
-                "f:{}:{}",
-                hex(field),
-                v.map(|f| f.to_bits().to_string()).unwrap_or("x".to_string())
-            ));
-            *budget -= 1;
+            // a field Rust's parser refuses needs no entry: the model reads a missing entry as a refusal, so bytes that merely
+            // look like the tag (one in 256 of any noise) cost nothing
+            if let Some(f) = v {
+                entries.push(format!("f:{}:{}", hex(field), f.to_bits()));
+                *budget -= 1;
+            }
         }
         if bytes[i] == 80 && i + 5 <= bytes.len() {
             let z = &bytes[i + 5..];
@@ -49,7 +49,10 @@ pub fn oracle_for(bytes: &[u8]) -> Option<String> {
     if !bytes.iter().any(|&b| b == 99 || b == 80) {
         return Some("-".to_string());
     }
-    if bytes.len() > 4096 {
+    // the table is keyed by content, so its size is bounded by the number of entries (the budget), not by the input; the
+    // cut-off only keeps request lines of a sane length (it was 4096 bytes until seeded change S63 showed that it removed
+    // every large compressed term from the runs)
+    if bytes.len() > 256 * 1024 {
         return None;
     }
     let mut entries = vec![];
